@@ -1,6 +1,8 @@
 import SiaModel.Driver.Acc
 import SiaModel.Merkle.Multiproof
 import SiaModel.Gateway.Outline
+import SiaModel.Merkle.TxTraverse
+import SiaModel.Codec.Irregular
 /-!
   Line-protocol ops for the multiproof code and the block outline (C18), `H := ByteArray`
   with the real BLAKE2b-256 for the multiproof ops; the outline ops work on hash tokens.
@@ -9,6 +11,8 @@ import SiaModel.Gateway.Outline
     mp-compute <mleaves>                 -> <multiproofSize> <computeMultiproof hashes>
     mp-expand  <idx:elem:len;...> <hashes> -> ok proof;proof;...   | panic
     mp-codec   <mleaves>                 -> <numLeaves> <multiproof> <decoded proofs>  | error
+    mp-encode  <hex of EncodeSlice(txns)>  -> hex of V2TransactionsMultiproof(txns).EncodeTo (value-tree model)
+    mp-traverse <hex of EncodeSlice(txns)> -> idx:prooflen;... of the visited parents (forEachElementLeaf on the value tree)
     ol-complete <reward> <block kind:hash:fee;...> <omitted hashes ,> <pool kind:hash:fee;...>
         -> <outline hashes> <missing before> <v1 hashes> <v2 hashes> <miner value> <missing after>
 -/
@@ -61,6 +65,40 @@ def opCodec : List String → String
     | none => "bad-op"
   | _ => "bad-op"
 
+/-! the byte-level model on value trees -/
+
+def toHash32 (b : ByteArray) : Hash32 :=
+  if h : b.data.toList.length = 32 then ⟨b.data.toList, h⟩ else default
+
+instance : Hasher Hash32 where
+  node l r := toHash32 (blake2b256 ((ByteArray.empty.push 1 ++ ⟨l.val.toArray⟩) ++ ⟨r.val.toArray⟩))
+  leaf e i s := toHash32 (blake2b256 (((ByteArray.empty.push 0 ++ ⟨e.val.toArray⟩) ++ le64 i).push (if s then 1 else 0)))
+
+def txnsSch : Sia.Codec.Sch := .slice (.ext "Types.V2Transaction")
+
+def valOpsDriver : TxSetOps Sia.Codec.Val :=
+  valOps (fun _ _ => default) (Sia.Codec.enc Sia.Codec.Irregular.env txnsSch) (Sia.Codec.dec Sia.Codec.Irregular.env 0 txnsSch)
+
+def opEncode : List String → String
+  | [hx] =>
+    match hexDecode hx with
+    | some b =>
+      match Sia.Codec.dec Sia.Codec.Irregular.env 0 txnsSch b.data.toList with
+      | .ok (v, []) => hexEncode ⟨(encodeBytes valOpsDriver v).toArray⟩
+      | _ => "error"
+    | none => "bad-op"
+  | _ => "bad-op"
+
+def opTraverse : List String → String
+  | [hx] =>
+    match hexDecode hx with
+    | some b =>
+      match Sia.Codec.dec Sia.Codec.Irregular.env 0 txnsSch b.data.toList with
+      | .ok (v, []) => showList ((valOpsDriver.leaves v).map fun l => s!"{l.index}:{l.proof.length}")
+      | _ => "error"
+    | none => "bad-op"
+  | _ => "bad-op"
+
 /-! outline ops over hash tokens -/
 
 structure Tok where
@@ -110,6 +148,8 @@ def mpOps : List (String × (List String → String)) := [
   ("mp-compute", MpOps.opCompute),
   ("mp-expand", MpOps.opExpand),
   ("mp-codec", MpOps.opCodec),
+  ("mp-encode", MpOps.opEncode),
+  ("mp-traverse", MpOps.opTraverse),
   ("ol-complete", MpOps.opOlComplete)]
 
 end Sia.Driver
